@@ -1,6 +1,8 @@
 ---------------------------- MODULE MC_XPrepStages ----------------------------
 EXTENDS XPrepStages, Json
 DS == {"d1", "d2"}
+CompAll == DS \X DS
+CompSelf == {<<d, d>> : d \in DS}
 NoDev == {}
 DevAlias == {"TransformOverwritesFitCoords"}
 EmitEdge == PrintT(<<"@@", ToJson([s |-> [fit |-> fitState, tf |-> tfState], a |-> last', t |-> [fit |-> fitState', tf |-> tfState']])>>)
